@@ -73,11 +73,18 @@ class Interp:
         self.ctx: PathCtx | None = None
 
     # ======================================================================
-    # quantified hypotheses: instantiated on the index terms that are actually read
+    # quantified hypotheses
+    #
+    # A hypothesis `forall k. lo <= k < hi -> body(k)` is FROZEN when it is assumed: its body is
+    # evaluated once, in the state of that moment, on placeholder constants, giving a closed z3
+    # formula.  (Evaluating the body later would read whatever the program has written since --
+    # the hypothesis would silently turn into a statement about the new state.)  Instances are
+    # obtained by substitution, triggered E-matching style by the reads f(t) of uninterpreted
+    # tensors/functions that occur in the verification condition.
     # ======================================================================
     def saw_index(self, k, _from_read=False):
         ctx = self.ctx
-        if ctx.ghost.get("instantiating"):
+        if ctx.ghost.get("pattern_probe"):
             return
         if isinstance(k, bool) or not (isinstance(k, int) or (is_z3(k) and z3.is_int(k))):
             return
@@ -88,135 +95,136 @@ class Interp:
         if key in terms:
             return
         terms[key] = k
-        for fa in ctx.ghost.get("foralls", []):
-            if not getattr(fa, "patterns", None):
-                self._instantiate_once(fa, k)       # no usable trigger: every index term
+        for fz in ctx.ghost.get("frozen", []):
+            if not fz.triggers:
+                self._instantiate_untriggered(fz)
 
     def saw_read(self, name, idx):
-        """A read f(idx) of an uninterpreted tensor: trigger-based instantiation (E-matching by
-        hand).  A hypothesis `forall k. body(k)` whose body reads f at k + c is instantiated at
-        idx - c; hypotheses without usable triggers are instantiated at every index term."""
+        """A read f(idx) of an uninterpreted tensor / function."""
         ctx = self.ctx
-        # reads made while instantiating a hypothesis trigger further instantiations one level
-        # deep only (an instance of a lemma may need the facts about the terms it mentions;
-        # unbounded chaining x[k+1] -> x[k+2] -> ... is cut off)
-        if ctx.ghost.get("instantiating", 0) >= 2 or ctx.ghost.get("pattern_probe"):
+        if ctx.ghost.get("pattern_probe") or ctx.ghost.get("inst_depth", 0) >= 2:
             return
-        idx = tuple(z3.simplify(i) if is_z3(i) else i for i in idx)
+        idx = tuple(z3.simplify(to_z3(i)) if (is_z3(i) or isinstance(i, int)) else i for i in idx)
         reads = ctx.ghost.setdefault("reads", {}).setdefault(name, {})
         key = str(idx)
         if key in reads:
             return
         reads[key] = idx
-        for fa in ctx.ghost.get("foralls", []):
-            pats = getattr(fa, "patterns", None)
-            if pats:
-                for (pn, pos, off) in pats:
-                    if pn == name and pos < len(idx):
-                        self._instantiate_once(fa, ops.sub(idx[pos], off))
+        if ctx.ghost.get("inst_depth", 0) >= 1:
+            ctx.ghost.setdefault("derived_reads", set()).add((name, key))   # came from an instance
+        for fz in ctx.ghost.get("frozen", []):
+            for trig in fz.triggers:
+                if trig[0] == name:
+                    self._instantiate_by_trigger(fz, trig, idx)
         for i in idx:
-            self.saw_index(i, _from_read=True)
+            if is_z3(i) and z3.is_int(i):
+                self.saw_index(i, _from_read=True)
 
-    def _instantiate_once(self, fa, k):
-        if is_z3(k):
-            k = z3.simplify(k)
-            if z3.is_int_value(k):
-                k = k.as_long()
-        done = fa.__dict__.setdefault("done", set())
-        key = str(k)
-        if key in done:
-            return
-        done.add(key)
-        self._instantiate(fa, k)
-
-    def _patterns(self, fa: ForallV):
-        """triggers of a hypothesis: (tensor name, argument position, offset) for every read of an
-        uninterpreted tensor at `k + offset` in its body"""
+    def freeze(self, fa: ForallV):
         ctx = self.ctx
-        k0 = z3.Int("k!pattern")
-        ctx.ghost["instantiating"] = ctx.ghost.get("instantiating", 0) + 1
+        vars_, guards = [], []
+        cur = fa
         ctx.ghost["pattern_probe"] = ctx.ghost.get("pattern_probe", 0) + 1
         try:
-            body = fa.fn(k0)
-        except Exception:
-            return None
+            while True:
+                ctx.fresh_n += 1
+                k = z3.Int(f"{cur.label}!h{ctx.fresh_n}")
+                vars_.append(k)
+                guards.append(z3.And(k >= to_z3(cur.lo), k < to_z3(cur.hi)))
+                body = cur.fn(k)
+                if isinstance(body, ForallV):
+                    cur = body
+                    continue
+                break
         finally:
-            ctx.ghost["instantiating"] -= 1
             ctx.ghost["pattern_probe"] -= 1
-        if isinstance(body, ForallV) or not is_z3(body):
-            return None
-        pats = set()
-        seen = set()
-
-        def walk(e):
-            if e.get_id() in seen:
-                return
-            seen.add(e.get_id())
-            if z3.is_app(e):
-                if e.num_args() > 0 and e.decl().kind() == z3.Z3_OP_UNINTERPRETED:
-                    for pos, a in enumerate(e.children()):
-                        if z3.is_int(a):
-                            d = z3.simplify(a - k0)
-                            if z3.is_int_value(d):
-                                pats.add((e.decl().name(), pos, d.as_long()))
-                for c in e.children():
-                    walk(c)
-        walk(body)
-        return pats or None
-
-    def quantified(self, fa: ForallV, depth=0):
-        """the hypothesis as a genuine z3 quantifier (used only to double-check a `sat` answer that
-        was obtained from the finitely many instances)"""
-        ctx = self.ctx
-        k = z3.Int(f"k!bound{depth}!{ctx.fresh_n}")
-        ctx.fresh_n += 1
-        ctx.ghost["instantiating"] = ctx.ghost.get("instantiating", 0) + 1
-        ctx.ghost["pattern_probe"] = ctx.ghost.get("pattern_probe", 0) + 1
-        try:
-            body = fa.fn(k)
-        finally:
-            ctx.ghost["instantiating"] -= 1
-            ctx.ghost["pattern_probe"] -= 1
-        if isinstance(body, ForallV):
-            body = self.quantified(body, depth + 1)
-        rng = z3.And(k >= to_z3(fa.lo), k < to_z3(fa.hi))
         if isinstance(body, bool):
             body = z3.BoolVal(body)
-        return z3.ForAll([k], z3.Implies(rng, body))
+        return FrozenForall(vars_, z3.And(*guards), body)
 
     def add_forall(self, fa: ForallV):
         ctx = self.ctx
-        ctx.ghost.setdefault("foralls", []).append(fa)
-        try:
-            ctx.quantified.append(self.quantified(fa))
-        except Exception:
-            ctx.quantified.append(None)
-        fa.patterns = self._patterns(fa)
-        if fa.patterns:
-            for (pn, pos, off) in fa.patterns:
-                for idx in list(ctx.ghost.get("reads", {}).get(pn, {}).values()):
-                    if pos < len(idx):
-                        self._instantiate_once(fa, ops.sub(idx[pos], off))
-            return
-        for k in list(ctx.ghost.get("index_terms", {}).values()):
-            self._instantiate_once(fa, k)
+        fz = self.freeze(fa)
+        ctx.ghost.setdefault("frozen", []).append(fz)
+        ctx.quantified.append(z3.ForAll(fz.vars, z3.Implies(fz.guard, fz.body)))
+        if fz.triggers:
+            for trig in fz.triggers:
+                derived = ctx.ghost.get("derived_reads", set())
+                for key, idx in list(ctx.ghost.get("reads", {}).get(trig[0], {}).items()):
+                    self._instantiate_by_trigger(fz, trig, idx, chained=(trig[0], key) in derived)
+        else:
+            self._instantiate_untriggered(fz)
 
-    def _instantiate(self, fa: ForallV, k):
+    def _instantiate_by_trigger(self, fz, trig, idx, chained=False):
+        name, binding = trig
+        vals = []
+        chained = chained or self.ctx.ghost.get("inst_depth", 0) >= 1
+        for vi in range(len(fz.vars)):
+            pos, off = binding[vi]
+            if pos >= len(idx):
+                return
+            if chained and off != 0:
+                return      # reads that come from instances only fire exact (offset 0) triggers:
+                            # keeps x[t] -> x[t+1] -> x[t+2] ... chains from growing
+            vals.append(z3.simplify(to_z3(idx[pos]) - off))
+        self._instantiate(fz, vals)
+
+    def _instantiate_untriggered(self, fz):
+        terms = list(self.ctx.ghost.get("index_terms", {}).values())
+        if len(fz.vars) == 1:
+            for t in terms:
+                self._instantiate(fz, [to_z3(t)])
+            return
+        import itertools as _it
+        combos = _it.product(terms, repeat=len(fz.vars))
+        for n, c in enumerate(combos):
+            if n > 400:
+                break
+            self._instantiate(fz, [to_z3(t) for t in c])
+
+    def _instantiate(self, fz, vals):
         ctx = self.ctx
-        rng = ops.b_and(ops.compare(ast.GtE, k, fa.lo), ops.compare(ast.Lt, k, fa.hi))
-        if rng is False:
+        key = str([str(v) for v in vals])
+        if key in fz.done:
             return
-        ctx.ghost["instantiating"] = ctx.ghost.get("instantiating", 0) + 1
+        fz.done.add(key)
+        sub = list(zip(fz.vars, vals))
+        g = z3.simplify(z3.substitute(fz.guard, *sub))
+        if z3.is_false(g):
+            return
+        inst = z3.substitute(fz.body, *sub)
+        ctx.assume(z3.Implies(g, inst))
+        # the instance mentions further terms: register their reads (bounded chaining) and unfold
+        # ghost recursive functions at them
+        ctx.ghost["inst_depth"] = ctx.ghost.get("inst_depth", 0) + 1
         try:
-            body = fa.fn(k)
+            self._register_apps(inst)
         finally:
-            ctx.ghost["instantiating"] -= 1
-        if isinstance(body, ForallV):
-            inner = body
-            self.add_forall(ForallV(lambda j: ops.b_implies(rng, inner.fn(j)), inner.lo, inner.hi,
-                                    inner.label))
-            return
-        ctx.assume(ops.b_implies(rng, body))
+            ctx.ghost["inst_depth"] -= 1
+
+    def _register_apps(self, e):
+        ctx = self.ctx
+        rec = ctx.ghost.get("rec_by_name", {})
+        seen = set()
+
+        def walk(x):
+            if x.get_id() in seen:
+                return
+            seen.add(x.get_id())
+            if z3.is_app(x):
+                if x.num_args() > 0 and x.decl().kind() == z3.Z3_OP_UNINTERPRETED:
+                    nm = x.decl().name()
+                    args = x.children()
+                    if all(z3.is_int(a) for a in args):
+                        if nm in rec:
+                            try:
+                                rec[nm](self, *args)
+                            except Exception:
+                                pass
+                        self.saw_read(nm, tuple(args))
+                for c in x.children():
+                    walk(c)
+        walk(e)
 
     # ======================================================================
     # names
@@ -342,6 +350,10 @@ class Interp:
             try:
                 a = self.eval(node.body, fr)
                 b = self.eval(node.orelse, fr)
+                if isinstance(a, T.LamTensor) and a.ndim == 0:
+                    a = a.fn()
+                if isinstance(b, T.LamTensor) and b.ndim == 0:
+                    b = b.fn()
                 return ops.ite(c, a, b)
             finally:
                 self.ctx.speculative -= 1
@@ -400,10 +412,18 @@ class Interp:
         return self.binop(type(node.op), a, b, node)
 
     def binop(self, op, a, b, node=None):
+        if getattr(a, "binop_first", False):    # abstract operands that absorb tensors too (contracts/krylov.py)
+            return a.binop(self, op, b, False)
+        if getattr(b, "binop_first", False):
+            return b.binop(self, op, a, True)
         if isinstance(a, T.LamTensor) or isinstance(b, T.LamTensor):
             return self.tensor_binop(op, a, b)
         if isinstance(a, OptV) or isinstance(b, OptV):
             a, b = self.unwrap_opt(a), self.unwrap_opt(b)
+        if hasattr(a, "binop"):             # value classes with their own operators (pyvc/floatsets.py)
+            return a.binop(self, op, b, False)
+        if hasattr(b, "binop"):
+            return b.binop(self, op, a, True)
         if op is ast.BitOr and isinstance(a, (set, frozenset)) and isinstance(b, (set, frozenset)):
             return set(a) | set(b)
         if op is ast.BitAnd and is_boolish(a) and is_boolish(b):
@@ -665,6 +685,10 @@ class Interp:
         gens = node.generators
         if len(gens) == 1:
             it = self.eval(gens[0].iter, sub)
+            if hasattr(it, "map_comprehension"):     # symbolic sets (pyvc/floatsets.py)
+                return it.map_comprehension(self, node, gens[0], sub)
+            if hasattr(it, "as_symseq"):             # range() with symbolic bounds
+                it = it.as_symseq()
             if isinstance(it, (SymSeq, T.LamTensor)) and not (
                     isinstance(it, T.LamTensor) and isinstance(it.shape[0], int)):
                 return self.symbolic_comprehension(node, gens[0], it, sub)
@@ -872,6 +896,11 @@ class Interp:
                 if isinstance(node, ast.Assign) and isinstance(node.targets[0], ast.Name) and \
                         node.targets[0].id == name:
                     return self.eval(node.value, Frame(mod, f"{mod.name}:{c.name}"))
+        # additive: a class method inherited from a base outside the repo may be modelled as
+        # reg.external["<Class>.<name>"] (e.g. pulser State.from_state_amplitudes)
+        ext = self.reg.external.get(f"{cref.name}.{name}")
+        if ext is not None:
+            return lambda I, *a, **k: ext(I, *a, **k)
         raise Unsupported(f"class attribute {cref.name}.{name}")
 
     def is_enum_class(self, cref: ClassRef) -> bool:
@@ -933,6 +962,8 @@ class Interp:
                 raise RaiseSig("KeyError", repr(idx), ctx.cur_line)
             return obj[idx]
         if isinstance(obj, SymSeq):
+            if isinstance(idx, T.LamTensor) and idx.ndim == 0:
+                idx = idx.fn()          # 0-d index tensor (e.g. perm[k]) -> its element
             if isinstance(idx, T.SliceV):
                 st, ln = T.slice_bounds(idx, obj.length)
                 return SymSeq(ln, (lambda st: lambda k: obj.fn(ops.add(st, k)))(st), obj.kind)
@@ -1171,6 +1202,8 @@ class Interp:
         policy, payload = self.reg.policy(fref)
         if policy == "inline":
             return self.exec_function(fref, args, kwargs)
+        if policy == "model" and getattr(payload, "pure", False):
+            return payload(self, *args, **kwargs)      # side-effect free model: fine in pure evaluation
         if self.ctx.speculative and policy != "pure":
             raise NeedFork()
         if policy == "contract":
@@ -1259,7 +1292,7 @@ class Interp:
         if isinstance(node, ast.Lambda):
             return self.eval(node.body, fr)
         is_gen = any(isinstance(n, (ast.Yield, ast.YieldFrom)) for n in ast.walk(node))
-        if is_gen:
+        if is_gen and fr.yields is None:
             fr.yields = []
         saved_line = self.ctx.cur_line
         try:
@@ -1301,10 +1334,10 @@ class Interp:
         if f is None:
             raise Unsupported("yield outside a generator")
         if hasattr(f.yields, "append_sym"):
-            f.yields.append_sym(self, v)
+            f.yields.append_sym(self, v, fr)       # ghost yield log (symbolic number of yields)
         else:
             f.yields.append(v)
-        self.ctx.log_write(("yields", id(f)), "*")
+            self.ctx.log_write(("yields", id(f)), "*")
 
     def s_Pass(self, node, fr):
         pass
@@ -1326,6 +1359,7 @@ class Interp:
                 # in-place tensor update: rebinding the element function keeps aliases in sync
                 new = self.binop(type(node.op), cur.copy(), self.eval(node.value, fr), node)
                 cur.fn = new.fn
+                cur.version += 1
                 self.ctx.log_write(("tensor", cur.tid), "*")
                 return
             fr.locals[t.id] = self.binop(type(node.op), cur, self.eval(node.value, fr), node)
@@ -1337,6 +1371,7 @@ class Interp:
             if isinstance(cur, T.LamTensor):
                 new = self.binop(type(node.op), cur.copy(), val, node)
                 cur.fn = new.fn
+                cur.version += 1
                 return
             self.setattr(obj, t.attr, self.binop(type(node.op), cur, val, node))
             return
@@ -1513,6 +1548,49 @@ class Interp:
             self.exec_block(node.orelse, fr)
             return
         self.reg.invariant_loop(self, node, fr, k, spec, None)
+
+
+class FrozenForall:
+    """A universally quantified hypothesis, closed at assumption time."""
+
+    def __init__(self, vars_, guard, body):
+        self.vars, self.guard, self.body = vars_, guard, body
+        self.done: set = set()
+        self.triggers = self._triggers()
+
+    def _triggers(self):
+        """(uf name, {var index: (argument position, offset)}) for every application of an
+        uninterpreted function in the body/guard whose integer arguments bind ALL variables"""
+        out = []
+        seen = set()
+        names = set()
+
+        def walk(e):
+            if e.get_id() in seen:
+                return
+            seen.add(e.get_id())
+            if z3.is_app(e):
+                if e.num_args() > 0 and e.decl().kind() == z3.Z3_OP_UNINTERPRETED:
+                    binding = {}
+                    for pos, a in enumerate(e.children()):
+                        if not z3.is_int(a):
+                            continue
+                        for vi, v in enumerate(self.vars):
+                            if vi in binding:
+                                continue
+                            d = z3.simplify(a - v)
+                            if z3.is_int_value(d):
+                                binding[vi] = (pos, d.as_long())
+                    if len(binding) == len(self.vars):
+                        key = (e.decl().name(), tuple(sorted(binding.items())))
+                        if key not in names:
+                            names.add(key)
+                            out.append((e.decl().name(), binding))
+                for c in e.children():
+                    walk(c)
+        walk(self.body)
+        walk(self.guard)
+        return out
 
 
 class ExternalMethod:
